@@ -323,13 +323,13 @@ def run(ck, binary, run_impl, replay):
         o1 = {"msg": [1, 3], "packed": {2: 0, 4: 5}, "max": 2}
         # 3-byte inputs: tag x (length-delimited | group | varint) x 2 bytes, with options (exhaustive on the
         # tag byte's low 3 bits and field numbers 1..4)
-        step = 1 if not quick else 3
+        step = 1 if not quick else 7
         for t in range(8, 40):
             for a in range(0, 256, step):
-                for b in (0, 1, 2, 8, 12, 0x0c, 0x80, 0xff, (t & 0xf8) | 4):
+                for b in ((0, 1, 2, 8, 12, 0x80, 0xff, (t & 0xf8) | 4) if not quick else (0, 1, 8, 0x80, (t & 0xf8) | 4)):
                     cases.append(mk_parse([t, a, b], o1, origin="exh3"))
         # (b) trees -> canonical encoding (round trip), and mutants of them
-        ntree = 1200 if quick else 20000
+        ntree = 800 if quick else 20000
         for i in range(ntree):
             o = gen_opts(rng)
             eff = 64 if o["max"] <= 0 else o["max"]
